@@ -277,6 +277,10 @@ def rawarray_groups():
             g('reverse', 'h_reverse', 'cstl_raw_array_reverse', 'reverse exactly mirrors the order for every count; writes only the array and the scratch element',
               tier=('quick' if esz == 1 else 'thorough'), timeout=1200, solver='kissat')
         g('search_arith', 'h_search_arith', 'cstl_raw_array_search', 'binary search: for arbitrary comparison outcomes all probes stay inside the array, indices never overflow, result in [-1,count)')
+        g('hsort_b', 'h_hsort_b', 'cstl_raw_array_hsort_b', 'heap sort sift-down, every count, arbitrary comparison outcomes: every compared / exchanged element inside the array, no overflow, terminates, frame = array + scratch element',
+          defines_extra=['-DVF_G_hsort_b'], timeout=900)
+        g('hsort', 'h_hsort', 'cstl_raw_array_hsort', 'heap sort (sift-down replaced by its proved contract), every count: both loops stay inside the array, frame = array + scratch element, terminates',
+          defines_extra=['-DVF_G_hsort'], timeout=900, replace=['cstl_raw_array_hsort_b'])
         g('search_func', 'h_search_func', 'cstl_raw_array_search',
           'binary search on a sorted array, every count: sortedness seen from the probe as zone boundaries lo <= hi (greater / equal / smaller); returns an index inside [lo,hi) iff lo < hi, else -1',
           defines_extra=['-DVF_G_search_func'])
